@@ -914,8 +914,23 @@ class Interp:
         name = e["name"]
         if "expanded" in e:
             return self.ev(e["expanded"], st)
-        if name == "format" and e.get("args"):
+        if name in ("format", "format_args") and e.get("args"):
             return self.ev_format(e, st)
+        if name in ("write", "writeln") and len(e.get("args") or []) >= 2:
+            # write!(target, fmt, args..)  ≡  target.push_str(&format!(fmt, args..))  (Write for String cannot fail)
+            tgt, rest = e["args"][0], e["args"][1:]
+            fmt = dict(e, name="format", args=rest)
+            if name == "writeln":
+                fmt = dict(fmt, newline=True)
+            push = {"k": "mcall", "l": e.get("l"), "recv": tgt, "m": "push_str", "targs": [], "args": [fmt]}
+            out = []
+            for s1, _ in self.ev(push, st):
+                if name == "writeln":
+                    for s2, _2 in self.ev({"k": "mcall", "l": e.get("l"), "recv": tgt, "m": "push", "targs": [], "args": [{"k": "lit", "l": e.get("l"), "t": "char", "v": "\n"}]}, s1):
+                        out.append((s2, {"v": "okunit"}))
+                else:
+                    out.append((s1, {"v": "okunit"}))
+            return out
         if name == "vec":
             outs = [(st, [])]
             for x in e.get("args", []):
@@ -1487,6 +1502,12 @@ class Interp:
             if key in self.f.fns:
                 return self.call_method(key, argv, st, e, prefix=rv["prefix"])
             return [(st, H("mcall", src(e), method=m, recv=H("field", "self." + rv["prefix"][:-1], field=rv["prefix"][:-1]), args=argv, ty=None))]
+        if m == "write_fmt" and len(argv) == 1 and k in ("bufref", "str"):
+            # String::write_fmt(format_args!(..)) appends the formatted text and cannot fail
+            res_ = self.ev({"k": "mcall", "l": e.get("l"), "recv": e["recv"], "m": "push_str", "targs": [], "args": [e["args"][0]]}, st)
+            return [(s1, {"v": "okunit"}) for s1, _ in res_]
+        if k == "okunit" and m in ("unwrap", "expect", "ok", "unwrap_or_default"):
+            return [(st, {"v": "unit"})]
         if k == "bufref" and m == "push_str" and len(argv) == 1:
             v = argv[0]
             st.buf = st.buf + (v["parts"] if is_str(v) else [("h", v)])
